@@ -15,7 +15,7 @@ use serde_json::{json, Value};
 
 const STREAM: u64 = 10;
 
-const CLASSES: [&str; 36] = [
+const CLASSES: [&str; 38] = [
     "honest",
     "kb-removed",
     "jwt-char",
@@ -52,6 +52,8 @@ const CLASSES: [&str; 36] = [
     "kb-claim-type-confusion",
     "resigned-header-typ",
     "resigned-header-extra",
+    "resigned-exp-within-leeway",
+    "disc-invalid-utf8",
 ];
 
 pub fn run(ctx: &Ctx) -> Report {
@@ -143,6 +145,9 @@ fn one_case(ctx: &Ctx, case: u64, l: &mut Local) {
                 let twice = |f: Fmt, text: &str| -> Outcome<Vec<String>> {
                     match api::holder_new(text, f) {
                         Outcome::Ok(mut h) => {
+                            // a refused call first (unknown claim / incomplete key-binding arguments), then the two real ones
+                            let _ = api::present_raw(&mut h, &json!({"no-such-claim#zz;": true}), None, None, None, None);
+                            let _ = api::present_raw(&mut h, &sel, Some("n".into()), None, None, None);
                             let _ = api::present(&mut h, &sel, Some(k));
                             api::present(&mut h, &sel_b, None).map(|p| {
                                 let mut d = Parts::parse(f, &p).map(|x| x.disclosures).unwrap_or_default();
@@ -493,6 +498,36 @@ fn one_case(ctx: &Ctx, case: u64, l: &mut Local) {
                     t.jwt = api::sign_raw(&hdr, &pl, cfg.alg.jwt(), &crate::keys::issuer_enc(cfg.alg, 0));
                     if t.kb.is_some() {
                         t.kb = Some(api::sign_kb(halg, 0, &kb_payload(&t), Some("kb+jwt")));
+                    }
+                }
+            }
+            "resigned-exp-within-leeway" => {
+                // exp a few seconds in the past / nbf a few seconds ahead: whatever tolerance the verifier
+                // applies, it applies to both forms
+                if let Ok(mut pl) = t.payload() {
+                    let now = api::now();
+                    if r.chance(70) {
+                        pl["exp"] = json!(now - *r.pick(&[1u64, 5, 20, 45, 58]));
+                    } else {
+                        pl["nbf"] = json!(now + *r.pick(&[1u64, 5, 20, 45, 58]));
+                    }
+                    t.jwt = api::sign_payload(cfg.alg, 0, &pl, None);
+                    if t.kb.is_some() {
+                        t.kb = Some(api::sign_kb(halg, 0, &kb_payload(&t), Some("kb+jwt")));
+                    }
+                }
+            }
+            "disc-invalid-utf8" => {
+                // one byte inside a string of a disclosure overwritten with an octet that is not UTF-8
+                if !t.disclosures.is_empty() {
+                    let i = r.usize(t.disclosures.len());
+                    if let Ok(mut bytes) = model::b64d(&t.disclosures[i]) {
+                        if let Some(q) = bytes.iter().position(|b| *b == b'"') {
+                            if q + 1 < bytes.len() {
+                                bytes[q + 1] = *r.pick(&[0xFFu8, 0xC3, 0x80, 0xFE]);
+                                t.disclosures[i] = b64e(&bytes);
+                            }
+                        }
                     }
                 }
             }
